@@ -18,6 +18,7 @@ var alphabet = []string{
 	"x", "1", `"s"`, "nil", "fmt", "Println",
 	"@", "fail", "line",
 	"try", "defer", "go", "switch", "case", "panic", "<-", "exit",
+	"/* x", // a comment that is never closed: it swallows whatever the driver appends to the text
 }
 
 // drivers
@@ -142,9 +143,10 @@ const (
 	formFragment = iota // the tokens on one line, as the whole text
 	formInMain          // inside func main() { ... }
 	formLines           // one token per line (console: every token is a line of input)
+	formOpenFunc        // inside func f() { that is never closed: the text ends in the middle of a construct
 )
 
-var formNames = []string{"fragment", "in-main", "token-per-line"}
+var formNames = []string{"fragment", "in-main", "token-per-line", "in-unclosed-func"}
 
 func seqPhase(name string, driver int, maxLen int, forms []int) phase {
 	return seqPhaseOver(name, driver, alphabet, 1, maxLen, forms)
@@ -170,6 +172,8 @@ func seqPhaseOver(name string, driver int, alpha []string, minLen, maxLen int, f
 				return "func main ( ) {\n" + render(toks) + "\n}\n", desc, len(toks)
 			case formLines:
 				return strings.Join(toks, "\n") + "\n", desc, len(toks)
+			case formOpenFunc:
+				return "func f ( ) {\n" + render(toks), desc, len(toks)
 			default:
 				return render(toks) + "\n", desc, len(toks)
 			}
@@ -379,6 +383,69 @@ func pairPhase(name string, driver int, subs []int, window int) phase {
 	}
 }
 
+// fineTokens splits a seed further: a dotted name (fmt.Println, p.x) becomes
+// its identifiers and dots, so that a text can end right after a dot.
+func fineTokens(src string) []string {
+	var out []string
+
+	for _, t := range seedTokens(src) {
+		parts := strings.Split(t, ".")
+		dotted := len(parts) > 1 && t != "..."
+
+		for _, p := range parts {
+			if p == "" || !(p[0] == '_' || p[0] >= 'a' && p[0] <= 'z' || p[0] >= 'A' && p[0] <= 'Z') {
+				dotted = false
+			}
+		}
+
+		if !dotted {
+			out = append(out, t)
+
+			continue
+		}
+
+		for i, p := range parts {
+			if i > 0 {
+				out = append(out, ".")
+			}
+
+			out = append(out, p)
+		}
+	}
+
+	return out
+}
+
+// prefixPhase enumerates every proper prefix of every seed (truncation after
+// each token, no line end added), optionally followed by suffix: the text
+// ends in the middle of whatever construct was being written.
+func prefixPhase(name string, driver int, suffix string) phase {
+	type cut struct{ seed, n int }
+
+	var all []cut
+
+	toks := make([][]string, len(seedText))
+
+	for s, src := range seedText {
+		toks[s] = fineTokens(src)
+
+		for n := 1; n < len(toks[s]); n++ {
+			if toks[s][n-1] != newline {
+				all = append(all, cut{s, n})
+			}
+		}
+	}
+
+	return phase{
+		name: name, driver: driver, n: int64(len(all)),
+		text: func(i int64) (string, string, int) {
+			c := all[i]
+
+			return render(toks[c.seed][:c.n]) + suffix, fmt.Sprintf("seed %d cut after token %d%s", c.seed, c.n, suffix), 1
+		},
+	}
+}
+
 // seedPhase runs every unedited seed through a driver.
 func seedPhase(name string, driver int) phase {
 	return phase{
@@ -413,8 +480,10 @@ func phases(thorough bool) []phase {
 }
 
 func allPhases(thorough bool) []phase {
-	both := []int{formFragment, formInMain}
-	console := []int{formFragment, formLines}
+	all3 := []int{formFragment, formInMain, formOpenFunc}
+	console := []int{formFragment, formLines, formOpenFunc}
+
+	const unclosed = " /* x"
 
 	if !thorough {
 		return []phase{
@@ -422,14 +491,20 @@ func allPhases(thorough bool) []phase {
 			seedPhase("seeds/file", drvRun),
 			seedPhase("seeds/pipe", drvPipe),
 			seedPhase("seeds/console", drvRepl),
-			seqPhase("sequences<=3/server", drvSrv, 3, both),
-			seqPhase("sequences<=2/file", drvRun, 2, both),
-			seqPhase("sequences<=2/pipe", drvPipe, 2, both),
+			seqPhase("sequences<=3/server", drvSrv, 3, all3),
+			seqPhase("sequences<=2/file", drvRun, 2, all3),
+			seqPhase("sequences<=2/pipe", drvPipe, 2, all3),
 			seqPhase("sequences<=2/console", drvRepl, 2, console),
 			editPhase("edits1-no-fmt-substitution/server", drvSrv, quickSubs()),
 			editPhase("edits1-structural/file", drvRun, nil),
 			editPhase("edits1-structural/pipe", drvPipe, nil),
 			editPhase("edits1-structural/console", drvRepl, nil),
+			prefixPhase("prefixes/server", drvSrv, ""),
+			prefixPhase("prefixes/console", drvRepl, ""),
+			prefixPhase("prefixes/pipe", drvPipe, ""),
+			prefixPhase("prefixes/file", drvRun, ""),
+			prefixPhase("prefixes+unclosed-comment/pipe", drvPipe, unclosed),
+			prefixPhase("prefixes+unclosed-comment/file", drvRun, unclosed),
 		}
 	}
 
@@ -438,13 +513,13 @@ func allPhases(thorough bool) []phase {
 		seedPhase("seeds/file", drvRun),
 		seedPhase("seeds/pipe", drvPipe),
 		seedPhase("seeds/console", drvRepl),
-		seqPhase("sequences<=3/server", drvSrv, 3, both),
-		seqPhaseOver("sequences=4-core-alphabet/server", drvSrv, coreAlphabet, 4, 4, both),
-		seqPhase("sequences<=2/file", drvRun, 2, both),
-		seqPhase("sequences<=2/pipe", drvPipe, 2, both),
+		seqPhase("sequences<=3/server", drvSrv, 3, all3),
+		seqPhaseOver("sequences=4-core-alphabet/server", drvSrv, coreAlphabet, 4, 4, all3),
+		seqPhase("sequences<=2/file", drvRun, 2, all3),
+		seqPhase("sequences<=2/pipe", drvPipe, 2, all3),
 		seqPhase("sequences<=2/console", drvRepl, 2, console),
-		seqPhaseOver("sequences=3-core-alphabet/file", drvRun, coreAlphabet, 3, 3, both),
-		seqPhaseOver("sequences=3-core-alphabet/pipe", drvPipe, coreAlphabet, 3, 3, []int{formFragment}),
+		seqPhaseOver("sequences=3-core-alphabet/file", drvRun, coreAlphabet, 3, 3, all3),
+		seqPhaseOver("sequences=3-core-alphabet/pipe", drvPipe, coreAlphabet, 3, 3, []int{formFragment, formOpenFunc}),
 		seqPhaseOver("sequences=3-core-alphabet/console", drvRepl, coreAlphabet, 3, 3, console),
 		editPhase("edits1/server", drvSrv, allTokens()),
 		editPhase("edits1-no-fmt-substitution/file", drvRun, quickSubs()),
@@ -452,5 +527,11 @@ func allPhases(thorough bool) []phase {
 		editPhase("edits1-no-fmt-substitution/console", drvRepl, quickSubs()),
 		pairPhase("edits2-structural/server", drvSrv, nil, 0),
 		pairPhase("edits2-local/server", drvSrv, quickSubs(), 3),
+		prefixPhase("prefixes/server", drvSrv, ""),
+		prefixPhase("prefixes/console", drvRepl, ""),
+		prefixPhase("prefixes/pipe", drvPipe, ""),
+		prefixPhase("prefixes/file", drvRun, ""),
+		prefixPhase("prefixes+unclosed-comment/pipe", drvPipe, unclosed),
+		prefixPhase("prefixes+unclosed-comment/file", drvRun, unclosed),
 	}
 }
